@@ -134,6 +134,18 @@ example : ∃ (H : Bytes → Bytes) (d₁ d₂ : StepDesc), HashLen H ∧ HostFr
   · intro _; rfl
   · decide
 
+/-- **F-C02-3 in the model**: only the recipe half of a tool provider's id is hashed; whatever else changes in
+the provider ids (their host / fingerprint halves) leaves the Variant-Id of the user unchanged, for every `H`.
+(`semRecipe` therefore lists tools by the recipe half of their provider; replayed on real recipes by the oracle.) -/
+theorem tool_host_not_in_vid (H : Bytes → Bytes) (d : StepDesc) (g : Tool → Bytes)
+    (hg : ∀ t, sliceRecipes (g t) = sliceRecipes t.prov) :
+    variantId H { d with tools := d.tools.map fun t => { t with prov := g t } } = variantId H d := by
+  apply vid_pure
+  · simp only [semRecipe]
+    rw [sortBy_map toolLe toolLe (fun t => { t with prov := g t }) (fun a b => rfl)]
+    simp [List.map_map, Function.comp_def, hg]
+  · rfl
+
 /-! ## 4. propagation -/
 
 /-- **a changed dependency changes every dependent id** (induction over the step graph).
